@@ -383,10 +383,28 @@ def run_case(case: dict) -> Result:
             if vars(m).get('_' + side + '_comment') is None:
                 continue
             before = omap(root)
+            comment = vars(m).get('_' + side + '_comment')
             getattr(m, 'unclaim_' + side + '_comment')()
             bad = check_unique(root, False, f'after unclaim_{side}_comment')
             if bad:
                 return _done(res.bad('unique:' + bad[0], bad[1]), classes)
+            # the released comment (still in the document) offered to another model's comment slot: refused, and the refusal must leave the comment
+            # unowned and flagged so - otherwise the claim below cannot restore the attribution (round 9, seed C14-i)
+            taker = next((x for x in commentable(root) if x is not m and hasattr(type(x), 'raw_leading_comment') and vars(x).get('_leading_comment') is None), None)
+            if isinstance(comment, BlockComment) and taker is not None:
+                mid = omap(root)
+                try:
+                    taker.raw_leading_comment = comment
+                except Exception:  # noqa: BLE001
+                    classes.add('stage:refused-hand-over')
+                    bad = check_unique(root, False, f'after a refused hand-over of the comment released by unclaim_{side}_comment to another model')
+                    if bad:
+                        return _done(res.bad('unique:refused-hand-over:' + bad[0], bad[1]), classes)
+                    if omap(root) != mid:
+                        return _done(res.bad(f'refused-hand-over-changed-attribution:{side}', f'a refused raw_leading_comment = <released comment> changed the attribution: '
+                                             f'{_mdiff(mid, omap(root))} in {text!r}'), classes)
+                else:
+                    return _done(res, classes)   # accepted: an attached node in two places is C19's subject; this round trip ends here
             try:
                 getattr(m, 'claim_' + side + '_comment')()
             except Exception as e:  # noqa: BLE001
